@@ -70,7 +70,7 @@ def run(rep):
         try:
             mdl = c["ex"]["models"][j]
             ct = [m["body_ir"][1] for m in mdl["methods"] if m["body_ir"][0] == "BCtor"][0]
-            return len(ct.get("spawns", [])), ct.get("order")
+            return len(ct.get("spawns", [])), ct.get("order"), ct.get("extra") or []
         except Exception:
             return None
 
@@ -78,8 +78,12 @@ def run(rep):
         sc = spawn_count(c, j)
         if sc is not None and sc[0] != 1 and c["kind"] == "actor":
             rep.oblige(False)
+            if sc[2]:
+                # statements the translator cannot read: the count says nothing about the code (the premise is broken, a failing input is looked for on the real runtime)
+                return {"_found": False, "what": "the constructor of the handle is not in the recognised form: %d spawn statement(s) recognised next to statements the translator "
+                                                 "does not read (%s): `exactly one actor thread / task per handle creation` is no longer shown" % (sc[0], [str(x)[:160] for x in sc[2]][:4])}
             return {"what": "the constructor of the handle starts %d actor threads / tasks (recognised constructor statements: %s): creating a handle must start exactly one, "
-                            "which owns the actor value until the last handle is gone" % sc}
+                            "which owns the actor value until the last handle is gone" % sc[:2]}
         sh = ctor_shadow(c, j)
         if sh is not None:
             rep.oblige(False)
@@ -109,7 +113,12 @@ def run(rep):
         runs += [["consume", lib, ch, "handles=1", "pending=%d" % (ch or 3)] for ch in ((0, 2) if rep.tier == "quick" else (0, 1, 2, 3))]
     # "starts exactly one actor thread": the constructor called when the OS refuses a new thread
     runs += [["nothread", "std", 0], ["nothread", "std", 2]]
-    rt_common.impl_side(rep, PID, runs, lambda a, d: probe.oracle_lifecycle(d) if a[0] == "lifecycle" else probe.oracle_nothread(d) if a[0] == "nothread" else probe.oracle_consume(d))
+    # the last handle dropped while an accepted call is suspended at an await point inside the user's async method
+    for lib in gen_impl.LIBS[1:]:
+        runs += [["napdrop", lib, 0, "ms=300", "queued=2"], ["napdrop", lib, 2, "ms=300", "queued=2"]]
+        if rep.tier != "quick":
+            runs += [["napdrop", lib, 1, "ms=900", "queued=1"], ["napdrop", lib, 0, "ms=1500", "queued=6"]]
+    rt_common.impl_side(rep, PID, runs, lambda a, d: probe.oracle_lifecycle(d) if a[0] == "lifecycle" else probe.oracle_napdrop(d) if a[0] == "napdrop" else probe.oracle_nothread(d) if a[0] == "nothread" else probe.oracle_consume(d))
 
 
 def replay(rep, path):
